@@ -45,9 +45,8 @@ def structure(icf_store, name):
     fld = icf_store.fields[name]
     parts = []
     for j in range(icf_store.num_partitions):
-        with open(fld.partition_path(j) / "chunk_index", "rb") as f:
-            ci = pickle.load(f)
-        parts.append([int(x) for x in np.diff(ci)])
+        # through the code's own accessor: the on-disk encoding of the index is the implementation's business
+        parts.append([int(x) for x in np.diff(fld.chunk_record_index(j))])
     return parts
 
 
@@ -91,18 +90,22 @@ def one_store(ctx, spec, work, tag):
             ctx.count(kind)
             # (1) reading the affected field
             for fname in affected:
-                try:
-                    st = vcf2zarr.IntermediateColumnarFormat(icf)
-                    vals = [canon(v) for v in st.fields[fname].values]
-                    silent = True
-                except Exception:  # noqa: BLE001
-                    silent = False
-                if silent:
-                    what = "different" if vals != orig[fname] else "the original"
-                    ctx.violate(f"{rel} {kind}{'' if k is None else f' to {k} of {len(content)} bytes'}: reading {fname} did not raise "
-                                f"(returned {what} values)", inp, "error", what)
+                # both read paths: the whole-column property and the (range) iterator that encode uses
+                for how in ("values", "iter_values"):
+                    try:
+                        st = vcf2zarr.IntermediateColumnarFormat(icf)
+                        fld_ = st.fields[fname]
+                        vals = [canon(v) for v in (fld_.values if how == "values" else fld_.iter_values())]
+                        silent = True
+                    except Exception:  # noqa: BLE001
+                        silent = False
+                    if silent:
+                        what = "different" if vals != orig[fname] else "the original"
+                        ctx.violate(f"{rel} {kind}{'' if k is None else f' to {k} of {len(content)} bytes'}: reading {fname} through "
+                                    f"{how} did not raise (returned {what} values, {len(vals)} of {n})", inp, "error", what)
             # (2) encoding the store (sampled: it is slow)
-            if kind == "deleted" or enc_done < (3 if not ctx.thorough else 8) and rng.random() < 0.3:
+            aimed = p.name == "chunk_index" and k in (16, 24, len(content) - 8, len(content) - 16, len(content) - 1)
+            if kind == "deleted" or aimed or enc_done < (3 if not ctx.thorough else 8) and rng.random() < 0.3:
                 enc_done += kind != "deleted"
                 out = pathlib.Path(work) / f"{tag}.enc.zarr"
                 shutil.rmtree(out, ignore_errors=True)
